@@ -280,11 +280,17 @@ def run(ctx: Ctx):
         ctx.violation("trace:" + clause, "trace %d rejected by Trace_Ap: %s" % (tid, clause), meta.get(tid))
     k = sorted(meta)[len(meta) // 2]
     ctx.sample({"trace": k, **meta[k]})
+    # frame-level and scene-level AP through the manager: the call histories of MC_ManagerHist (pooled rankings, ground-truth counts summed)
+    from . import history
+
+    history.replay_worlds(ctx, 2, want=lambda clause: clause in ("scene-score", "scene-gt-count", "raised") or (clause.startswith("frame-result") and "ap" in clause.split(":")[-1].split("+")),
+                          tag="ap_")
     ctx.rule = (
         "TLC enumerates every ranking of length <= N over {TP(w in 0..2), FP, ignored} x every ground-truth count 0..G and checks operational = "
         "declarative AP/APH, bounds, zero/perfect cases; every (ranking, g) is realised as real object results (shuffled input order, matching modes "
         "cycled / all four in thorough) and Ap.tp_list, fp_list, ap, APH and single-label Map compared with the specification's exact rationals; "
-        "random buckets of up to 300 real results and multi-label Maps are validated as traces by TLC in fixed point. Non-trivial = ranking with an "
+        "random buckets of up to 300 real results and multi-label Maps are validated as traces by TLC in fixed point; frame-level and scene-level "
+        "AP of every call history of MC_ManagerHist (depth 2) is compared through the real manager. Non-trivial = ranking with an "
         "ignored entry or >= 2 different entry kinds and g > 0; trace with >= 3 results or a Map; distinct by (ranking, g) / trace id."
     )
     ctx.exhaustive = False
